@@ -1040,6 +1040,16 @@ where
         if !seen_cond && seen_if {
             // This is the condition expression - keep it flat (don't break inside)
             // We use group() on the condition to try to keep it on one line
+            // A condition written without parentheses must not be glued to the keyword
+            if !matches!(
+                node,
+                mimium_lang::compiler::parser::green::GreenNode::Internal {
+                    kind: SyntaxKind::ParenExpr,
+                    ..
+                }
+            ) {
+                result = result.append(allocator.space());
+            }
             result = result.append(child_doc.group());
             seen_cond = true;
         } else if !seen_then && seen_cond {
